@@ -7,6 +7,9 @@ def family(pid):
     if pid == 'C20':
         from p_c20 import C20
         return C20()
+    import p_mode
+    if hasattr(p_mode, pid):
+        return getattr(p_mode, pid)()
     import p_query
     if hasattr(p_query, pid):
         return getattr(p_query, pid)()
